@@ -336,7 +336,9 @@ package cache
 //@ loop 3 invariant StagedKeys(r, removeIndexes, oldRow, len(r.indexSpecs))
 //@ loop 3 invariant StagedSets(r, removeIndexes, oldRow, len(r.indexSpecs))
 //@ loop 3 invariant StagedUUID(r, removeIndexes, oldRow, uuid, len(r.indexSpecs))
-//@ loop 3 invariant forall i: int, v: interface{}, u: string :: 0 <= i && i < len(r.indexSpecs) ==> (InIdx(r, i, v, u) == (HasVal(r, i, v, u) && !(u == uuid && (i <= rangeindex2 || (i == rangeindex2 + 1 && visited(v))))))
+//@ loop 3 invariant 0 <= rangeindex2 + 1 && rangeindex2 + 1 < len(r.indexSpecs)
+//@ loop 3 invariant forall i: int, v: interface{}, u: string :: 0 <= i && i < len(r.indexSpecs) && i != rangeindex2 + 1 ==> (InIdx(r, i, v, u) == (HasVal(r, i, v, u) && !(u == uuid && i <= rangeindex2)))
+//@ loop 3 invariant forall v: interface{}, u: string :: InIdx(r, rangeindex2 + 1, v, u) == (HasVal(r, rangeindex2 + 1, v, u) && !(u == uuid && visited(v)))
 
 // ---- Create: index entries afterwards, in terms of the cache before ----------
 // (schema indexes are single-valued: adding overwrites the entry; client
